@@ -317,37 +317,27 @@ def r8(ctx):
     # mask coordinates becomes slice(254, 3)), `iymax - iymin` of int8 limits overflows (shape (2, -56))
     init = method_or_fail(ctx, ci, '__init__')
     params = [a.arg for a in init.node.args.args][1:]
-    conv = {}            # local name -> parameter it is the Python-int conversion of
-
-    def converted(e):
-        if isinstance(e, ast.Name) and e.id in conv:
-            return conv[e.id]
-        if isinstance(e, ast.Call) and not e.keywords and len(e.args) == 1 and isinstance(e.args[0], ast.Name) \
-                and (call_name(e) or '') in ('int', 'operator.index', 'index'):
-            return e.args[0].id
-        return None
-    stored = {}
-    for st in ast.walk(init.node):
-        if isinstance(st, ast.Assign) and len(st.targets) == 1:
-            t, v = st.targets[0], st.value
-            pairs = list(zip(t.elts, v.elts)) if isinstance(t, ast.Tuple) and isinstance(v, ast.Tuple) and \
-                len(t.elts) == len(v.elts) else [(t, v)]
-            for tt, vv in pairs:
-                c = converted(vv)
-                if isinstance(tt, ast.Name) and c is not None:
-                    conv[tt.id] = c
-                if isinstance(tt, ast.Attribute) and isinstance(tt.value, ast.Name) and tt.value.id == 'self' \
-                        and tt.attr in FIELDS:
-                    stored[tt.attr] = (c, st)
-    ctx.need(set(stored) == set(FIELDS), 'RegionBoundingBox.__init__', f'stores of the four limits not found: {sorted(stored)}')
-    raw = sorted(k for k, (c, st) in stored.items() if c is None)
+    # decided on the value: the constructor is evaluated with four opaque numbers; each stored limit must be int(<its
+    # parameter>) (operator.index is the same conversion for integer inputs)
+    ev = evaluator(ctx)
+    self_ = Obj('RegionBoundingBox', {}, None, ci)
+    syms = {p_: sp.Symbol('arg_' + p_, real=True) for p_ in params}
+    ev.run(init, [self_] + [syms[p_] for p_ in params], {})
+    ctx.need(set(FIELDS) <= set(self_.fields), 'RegionBoundingBox.__init__', f'stores of the four limits not found: {sorted(self_.fields)}')
+    raw = []
+    for k in FIELDS:
+        v = self_.fields[k]
+        conv = is_num(v) and getattr(v.func, '__name__', '') in ('int', 'index') and len(v.args) == 1 and v.args[0] == syms.get(k)
+        if not conv:
+            raw.append(k)
+    raw.sort()
     if raw:
         ctx.bad('RegionBoundingBox.__init__', 'fixed-width-limits',
                 f'the limits {raw} are stored as given: a numpy integer scalar (accepted by the type check) keeps its fixed '
                 'width, so RegionBoundingBox(np.uint8(2), np.uint8(5), np.uint8(3), np.uint8(6)).get_overlap_slices((10, 10)) '
                 'has the mask window slice(253, 3) (`-ymin` wraps around) and every RegionMask method raises, and '
                 'RegionBoundingBox(np.int8(-100), np.int8(100), np.int8(0), np.int8(2)).shape is (2, -56); the limits must be '
-                'converted to Python integers (int(...)) when they are stored', init.loc(stored[raw[0]][1]))
+                'converted to Python integers (int(...)) when they are stored', init.loc())
         return
     ctx.ok('RegionBoundingBox.__init__', 'the four limits are stored as Python integers (int(...)): the arithmetic cannot wrap')
     # (b) with Python-int limits no method can overflow; the dataflow below stays as a guard for limits that reach a method
